@@ -11,7 +11,9 @@ dialects; SQL *text* is never executed on PostgreSQL/MySQL/Oracle (no servers he
 validated on every run: the text Pony's real builder renders is executed on a real SQLite database and the
 rows are compared with what SqlSem computes for the same AST (disagreement = MachineryError).
 """
+import datetime
 import json
+import re
 import warnings
 from collections import Counter
 from concurrent.futures import ThreadPoolExecutor
@@ -171,6 +173,16 @@ def sqlite_rows(work, datasets):
     return out
 
 
+_DT = re.compile(r'^\d{4}-\d\d-\d\d \d\d:\d\d:\d\d(\.\d+)?$')
+
+
+def engine_value(x):
+    """SQLite stores datetimes as text (with or without fraction): compare them as datetimes."""
+    if isinstance(x, str) and _DT.match(x):
+        return datetime.datetime.strptime(x, '%Y-%m-%d %H:%M:%S.%f' if '.' in x else '%Y-%m-%d %H:%M:%S')
+    return x
+
+
 def plain_rows(rows):
     return [tuple(sqlast.unval(v) for v in r) for r in rows]
 
@@ -283,8 +295,16 @@ def run(ctx):
             if v['err']:
                 continue
             model = plain_rows(v['got'])
-            engine = rows[v['ds'] - 1]
+            engine = [tuple(engine_value(x) for x in r) for r in rows[v['ds'] - 1]]
             same = model == engine if it['st']['order'] else Counter(model) == Counter(engine)
+            if not same and v['ok']:
+                # the AST means what the query means (TLC: equals RefEval) but the text rendered from it by the real
+                # SQLite builder gives other rows on the real engine: a defect of the builder, not of the model
+                ctx.mismatch('C02:SQLite:text-differs-from-ast:' + '+'.join(sorted(node_kinds(it['st']) - {'COLUMN', 'VALUE', 'AND', 'NONE', 'LIST'})),
+                             '%s on SQLite, data set %d: the SQL AST evaluates to %r (as expected) but the text %s executed on SQLite gives %r'
+                             % (it['_src'], v['ds'], model, ' '.join(sql.split()), engine),
+                             {'q': it['q'], 'slice': it['slice'], 'provider': 'sqlite', 'ds': v['ds']})
+                continue
             if not same:
                 raise MachineryError('SqlSem (SQLite) disagrees with the real SQLite engine on %s, data set %d:\n  %s\n  model %r\n  engine %r'
                                      % (it['_src'], v['ds'], ' '.join(sql.split()), model, engine))
